@@ -228,3 +228,117 @@ pub fn pkesk_encrypt(version: u8, key: &KeyBody, fingerprint: &[u8], sym: u8, se
         a => Err(format!("algorithm {a} not implemented in the reference")),
     }
 }
+
+/// Hostile PKESK: the recipient's key really decrypts it, but to attacker-chosen octets `m`
+/// (RSA: PKCS#1 v1.5 of `m`; ECDH / X25519 / X448: AES key wrap of `m` as is - no padding, no
+/// checksum are added, `m` must be a multiple of 8 and at least 16 octets for the wrap).
+pub fn pkesk_hostile_fields(version: u8, key: &KeyBody, fingerprint: &[u8], m: &[u8], v3_alg_octet: u8, eph_seed: [u8; 32]) -> Result<Vec<u8>, String> {
+    match key.alg {
+        1 | 2 | 3 => {
+            use rand::SeedableRng;
+            let (n, a) = read_mpi(&key.public).ok_or("n")?;
+            let (e, _) = read_mpi(&key.public[a..]).ok_or("e")?;
+            let pk = rsa::RsaPublicKey::new(rsa::BigUint::from_bytes_be(&n), rsa::BigUint::from_bytes_be(&e)).map_err(|e| e.to_string())?;
+            let mut rng = rand_chacha::ChaCha8Rng::from_seed(eph_seed);
+            let c = pk.encrypt(&mut rng, rsa::Pkcs1v15Encrypt, m).map_err(|e| e.to_string())?;
+            Ok(mpi(&c))
+        }
+        18 => {
+            let (oid, point, kdf_hash, kek_sym) = ecdh_public(&key.public).ok_or("ecdh public")?;
+            if m.len() % 8 != 0 || m.len() < 16 {
+                return Err("wrap length".into());
+            }
+            let (eph_pub, shared): (Vec<u8>, Vec<u8>) = if oid == OID_CV25519 {
+                let s = x25519_dalek::StaticSecret::from(eph_seed);
+                let p = x25519_dalek::PublicKey::from(&s);
+                let their: [u8; 32] = point.get(1..).ok_or("pt")?.try_into().map_err(|_| "pt")?;
+                let sh = s.diffie_hellman(&x25519_dalek::PublicKey::from(their));
+                let mut e = vec![0x40];
+                e.extend_from_slice(p.as_bytes());
+                (e, sh.as_bytes().to_vec())
+            } else if oid == OID_P256 {
+                let mut seed = eph_seed;
+                seed[0] &= 0x7f;
+                seed[31] |= 1;
+                let sk = p256::SecretKey::from_slice(&seed).map_err(|e| e.to_string())?;
+                let pk = p256::PublicKey::from_sec1_bytes(&point).map_err(|e| e.to_string())?;
+                let sh = p256::ecdh::diffie_hellman(sk.to_nonzero_scalar(), pk.as_affine());
+                use p256::elliptic_curve::sec1::ToEncodedPoint;
+                (sk.public_key().to_encoded_point(false).as_bytes().to_vec(), sh.raw_secret_bytes().to_vec())
+            } else {
+                return Err("curve".into());
+            };
+            let kek = ecdh_kdf(kdf_hash, &shared, &oid, kdf_hash, kek_sym, fingerprint);
+            let wrapped = aes_kw_wrap(kek_sym, &kek, m);
+            let mut out = mpi(&eph_pub);
+            out.push(wrapped.len() as u8);
+            out.extend_from_slice(&wrapped);
+            Ok(out)
+        }
+        25 => {
+            if m.len() % 8 != 0 || m.len() < 16 {
+                return Err("wrap length".into());
+            }
+            let s = x25519_dalek::StaticSecret::from(eph_seed);
+            let p = x25519_dalek::PublicKey::from(&s);
+            let their: [u8; 32] = key.public.get(..32).ok_or("pk")?.try_into().unwrap();
+            let sh = s.diffie_hellman(&x25519_dalek::PublicKey::from(their));
+            let kek = x25519_kek(p.as_bytes(), &key.public, sh.as_bytes());
+            let wrapped = aes_kw_wrap(7, &kek, m);
+            let mut out = p.as_bytes().to_vec();
+            if version == 3 {
+                out.push((wrapped.len() + 1) as u8);
+                out.push(v3_alg_octet);
+            } else {
+                out.push(wrapped.len() as u8);
+            }
+            out.extend_from_slice(&wrapped);
+            Ok(out)
+        }
+        26 => {
+            if m.len() % 8 != 0 || m.len() < 16 {
+                return Err("wrap length".into());
+            }
+            let mut sk = [0u8; 56];
+            sk[..32].copy_from_slice(&eph_seed);
+            sk[32..].copy_from_slice(&eph_seed[..24]);
+            let secret = cx448::x448::Secret::from(sk);
+            let p = cx448::x448::PublicKey::from(&secret);
+            let their = cx448::x448::PublicKey::from_bytes(key.public.get(..56).ok_or("pk")?).ok_or("their key")?;
+            let sh = secret.as_diffie_hellman(&their).ok_or("dh")?;
+            let kek = x448_kek(p.as_bytes(), &key.public, sh.as_bytes());
+            let wrapped = aes_kw_wrap(9, &kek, m);
+            let mut out = p.as_bytes().to_vec();
+            if version == 3 {
+                out.push((wrapped.len() + 1) as u8);
+                out.push(v3_alg_octet);
+            } else {
+                out.push(wrapped.len() as u8);
+            }
+            out.extend_from_slice(&wrapped);
+            Ok(out)
+        }
+        a => Err(format!("algorithm {a}")),
+    }
+}
+
+/// complete PKESK packet body around hostile fields
+pub fn pkesk_body(version: u8, key: &KeyBody, fingerprint: &[u8], fields: &[u8], anonymous: bool) -> Vec<u8> {
+    let mut body = vec![version];
+    if version == 6 {
+        if anonymous {
+            body.push(0);
+        } else {
+            body.push((fingerprint.len() + 1) as u8);
+            body.push(key.version);
+            body.extend_from_slice(fingerprint);
+        }
+    } else if anonymous {
+        body.extend_from_slice(&[0; 8]);
+    } else {
+        body.extend_from_slice(&super::crypto::key_id(key.version, fingerprint));
+    }
+    body.push(key.alg);
+    body.extend_from_slice(fields);
+    body
+}
